@@ -1,13 +1,12 @@
 SPECIFICATION JSpec
 CONSTANTS
-    MaxBarriers = 0
-    Inputs <- MCInputsOn2
-    Configs <- MCConfigsOnQ
+    MaxBarriers = 3
+    Inputs <- MCInputs2x3
+    Configs <- MCConfigsBar
 INVARIANTS
     JoinPairing
     Confluence
     FlushOnClose
-    FlushOnCloseOn
     OldestIsKey
     JoinCausal
 CHECK_DEADLOCK FALSE
